@@ -11,6 +11,7 @@ import (
 	"reflect"
 	"strconv"
 	"strings"
+	"sync"
 	"sync/atomic"
 
 	"github.com/tmpim/casket/casketfile"
@@ -50,7 +51,7 @@ var concretePolicies = []struct{ name, block, model string }{
 	{"uri_hash", "policy uri_hash", "hashed"},
 	{"header", "policy header X-Key", "hashed"},
 	{"header2", "policy header X-Key X-Key2", "hashed"}, // values of several headers concatenated
-	{"header-novalue", "policy header X-Key", "rr"},    // request without the header: package-global round robin
+	{"header-novalue", "policy header X-Key", "rr"},     // request without the header: package-global round robin
 }
 
 func fnv32a(s string) uint32 {
@@ -79,6 +80,78 @@ func keyFor(kind string, n, res, k int) string {
 			found++
 		}
 	}
+}
+
+const fnvPrime, fnvPrimeInv = 16777619, 899433627 // 16777619 * 899433627 = 1 (mod 2^32)
+
+var (
+	edgeMu    sync.Mutex
+	edgeFwd   = map[string]map[uint32]string{}
+	edgeCache = map[string]string{}
+)
+
+// edgeKey returns a key of the given kind whose FNV-1a hash h has residue res modulo n and lies in
+// the top n values of the 32-bit range (h + i overflows for some i < n). Found by meeting in the
+// middle: 3 characters forward from the prefix, 4 characters backward from the target hash.
+func edgeKey(kind string, n, res int) string {
+	var target uint32
+	found := false
+	for d := 0; d < n; d++ {
+		if t := uint32(0xFFFFFFFF) - uint32(d); int(t%uint32(n)) == res {
+			target, found = t, true
+		}
+	}
+	if !found {
+		return ""
+	}
+	prefix := map[string]string{"ip": "h", "uri": "/e", "hdr": "e"}[kind]
+	ck := fmt.Sprintf("%s/%d", kind, target)
+	edgeMu.Lock()
+	defer edgeMu.Unlock()
+	if k, ok := edgeCache[ck]; ok {
+		return k
+	}
+	const alpha = "abcdefghijklmnopqrstuvwxyz0123456789"
+	fwd := edgeFwd[kind]
+	if fwd == nil {
+		fwd = map[uint32]string{}
+		h0 := fnv32a(prefix)
+		for _, a := range alpha {
+			for _, b := range alpha {
+				for _, c := range alpha {
+					h := h0
+					for _, x := range []rune{a, b, c} {
+						h = (h ^ uint32(x)) * fnvPrime
+					}
+					fwd[h] = string([]rune{a, b, c})
+				}
+			}
+		}
+		edgeFwd[kind] = fwd
+	}
+	key := ""
+search:
+	for _, d := range alpha {
+		h3 := (target * fnvPrimeInv) ^ uint32(d)
+		for _, c := range alpha {
+			h2 := (h3 * fnvPrimeInv) ^ uint32(c)
+			for _, b := range alpha {
+				h1 := (h2 * fnvPrimeInv) ^ uint32(b)
+				for _, a := range alpha {
+					h0 := (h1 * fnvPrimeInv) ^ uint32(a)
+					if mid, ok := fwd[h0]; ok {
+						key = prefix + mid + string([]rune{a, b, c, d})
+						break search
+					}
+				}
+			}
+		}
+	}
+	if key != "" && fnv32a(key) != target {
+		key = ""
+	}
+	edgeCache[ck] = key
+	return key
 }
 
 // upstreamFor builds a real upstream from a proxy block with n backends.
@@ -391,12 +464,20 @@ func checkSelect(e *selEnv, c *selCase, pi int, fresh bool, onlyClause string, o
 		if kk == "hdr2" {
 			kk = "hdr"
 		}
-		for res := 0; res < c.N; res++ {
+		// every residue twice: with an ordinary key, and with a key whose 32-bit hash lies within
+		// n of 2^32 (any arithmetic on the hash before the reduction modulo n must not wrap)
+		for resx := 0; resx < 2*c.N; resx++ {
+			res := resx % c.N
 			if onlyClause != "" && onlyRes != res {
 				continue
 			}
 			applyCase(pool, c, c.St)
 			key := keyFor(kk, c.N, res, (c.N+len(c.St[0]))%3)
+			if resx >= c.N {
+				if key = edgeKey(kk, c.N, res); key == "" {
+					continue
+				}
+			}
 			s := slotOf(pool, up.Select(selRequest(kind, key, port)))
 			count(fmt.Sprintf("%s/%d/%v/%d", cp.name, c.N, c.Avail, res))
 			if w := okSel(s); w != "" {
